@@ -1496,3 +1496,82 @@ Lemma epan_pieces (h x : Q) : 0 < h -> - h < x -> x < h ->
 Proof.
   intros Hh A B. split; [apply epan_pdf_inside; assumption | apply epan_cdf_mid; lra].
 Qed.
+
+(* ====================================================================== *)
+(* 12. the delta kernel between two boundaries                              *)
+(* ====================================================================== *)
+Section DeltaBoth.
+  Variable k : kde.
+  Hypothesis ok : kde_ok_delta k.
+  Hypothesis kern : k_kernel k = KDelta.
+  Variables m M : Q.
+  Hypothesis B : k_b k = BBoth m M.
+  Hypothesis Hin : pairs_within m M (kde_ps k).
+  Hypothesis mM : m < M.
+
+  Let Y := mix delta_cdf (k_xs k) (k_ws k).
+  Let wf : ws_wf (k_xs k) (k_ws k). Proof. apply ok. Qed.
+  Let Y_ecdf z : Y z == wecdf (kde_ps k) z.
+  Proof. unfold Y. rewrite mix_is_wavg by exact wf. apply wavg_delta_is_wecdf. Qed.
+  Let Y0 z : z < m -> Y z == 0.
+  Proof. intro H. rewrite Y_ecdf. apply (wecdf_left k ok m M z Hin H). Qed.
+  Let Y1 z : M <= z -> Y z == 1.
+  Proof. intro H. rewrite Y_ecdf. apply (wecdf_right k ok m M z Hin H). Qed.
+  Let Y_comp s t : s == t -> Y s == Y t.
+  Proof.
+    intro E. unfold Y. rewrite !mix_is_wavg by exact wf. apply wavg_comp; [|exact E].
+    intros a b Eab. unfold delta_cdf. rewrite Eab. reflexivity.
+  Qed.
+
+  Variable x : Q.
+  Hypothesis x_in : m <= x /\ x < M.
+
+  Let up_tail n : cdf_upper Y m M x (S n) == 0.
+  Proof.
+    unfold cdf_upper.
+    assert (Hc : 0 <= Qofnat n * img_d m M).
+    { apply Qmult_le_0_compat; [apply Qofnat_nonneg | unfold img_d; lra]. }
+    assert (Ec : Qofnat (S n) * img_d m M == Qofnat n * img_d m M + img_d m M) by (rewrite Qofnat_S; ring).
+    set (c := Qofnat n * img_d m M) in *. set (c' := Qofnat (S n) * img_d m M) in *. clearbody c c'.
+    unfold img_d, img_w in *. rewrite !Y1 by lra. ring.
+  Qed.
+  Let lo_all n : cdf_lower Y m M x n == 0.
+  Proof.
+    unfold cdf_lower.
+    assert (Hc : 0 <= Qofnat n * img_d m M).
+    { apply Qmult_le_0_compat; [apply Qofnat_nonneg | unfold img_d; lra]. }
+    assert (Ec : (Qofnat n + 1) * img_d m M == Qofnat n * img_d m M + img_d m M) by ring.
+    set (c := Qofnat n * img_d m M) in *. set (c' := (Qofnat n + 1) * img_d m M) in *. clearbody c c'.
+    unfold img_d, img_w in *. rewrite !Y0 by lra. ring.
+  Qed.
+
+  (* between the boundaries the folded step function is the empirical distribution function
+     (0 AT BoundaryMin, even if a data point sits there) *)
+  Theorem delta_cdf_both :
+    exists c, kde_cdf k x = Some (XFin c) /\
+              (x == m -> c == 0) /\ (m < x -> c == wecdf (kde_ps k) x).
+  Proof.
+    rewrite kde_cdf_delta by (assumption || apply ok). rewrite B. cbn [reflect_cdf].
+    destruct x_in as [X1 X2].
+    assert (A1 : Qltb x m = false) by (apply Qltb_false; lra).
+    assert (A2 : Qle_bool M x = false) by (apply Qle_bool_false; lra). rewrite A1, A2.
+    assert (Fu : (1 < k_fuel k)%nat).
+    { unfold k_fuel. rewrite B, kern. unfold img_fuel.
+      assert (E : Qle_bool M m = false) by (apply Qle_bool_false; lra). rewrite E. lia. }
+    destruct (series_q_value (cdf_upper Y m M x) (k_fuel k) 1) as [a [S1 S2]];
+      [intros n _; apply up_tail | apply up_tail | exact Fu |].
+    destruct (series_q_value (cdf_lower Y m M x) (k_fuel k) 0) as [b [T1 T2]];
+      [intros n _; apply lo_all | apply lo_all | lia |].
+    fold Y. unfold two_series. rewrite S1, T1. cbn [option_map].
+    eexists. split; [reflexivity|].
+    assert (Ea : a == Y x - Y (2 * m - x)).
+    { rewrite (S2 1%nat) by lia. cbn [nat_sum]. unfold cdf_upper, img_d, img_w.
+      rewrite (Y_comp (x + Qofnat 0 * (2 * (M - m))) x) by (unfold Qofnat; cbn; ring).
+      rewrite (Y_comp (x + Qofnat 0 * (2 * (M - m)) - 2 * (x - m)) (2 * m - x)) by (unfold Qofnat; cbn; ring).
+      ring. }
+    assert (Eb : b == 0) by (rewrite (T2 0%nat) by lia; reflexivity).
+    rewrite Qred_correct, Ea, Eb. split; intro H.
+    - rewrite (Y_comp (2 * m - x) x) by lra. ring.
+    - rewrite (Y0 (2 * m - x)) by lra. rewrite Y_ecdf. ring.
+  Qed.
+End DeltaBoth.
